@@ -7,6 +7,7 @@ handshake id (which doubles as the peer-reported time) and the initiator index; 
 indexes. Ghost fields: `removed` (tunnels a side deleted or evicted), `swaps` (primary swaps performed).
 -/
 import Nebula.Gen.HsManager
+import Nebula.Model.ConnMgr
 
 namespace Nebula.HsRace
 
@@ -32,6 +33,7 @@ structure Side where
   pending : Option (Nat × Nat) := none   -- (handshake id, local index)
   swaps : Nat := 0                  -- ghost
   inbox : List Msg := []            -- in flight towards this side
+  pdl : List Tun := []              -- tunnels marked pendingDeletion by the connection manager
   deriving DecidableEq, Repr, Inhabited
 
 def Side.held (s : Side) : List Tun := s.tunnels ++ s.removed
@@ -57,6 +59,9 @@ inductive Step
   | drop (toX : Bool) (k : Nat)
   | swap (onX : Bool) (j : Nat)
   | del (onX : Bool) (j : Nat)
+  /-- one traffic check of the connection manager (doTrafficCheck) for tunnel `j` of a side; the scheduler says
+  whether the tunnel saw inbound / outbound traffic since its last check -/
+  | check (onX : Bool) (j : Nat) (inT outT : Bool)
   deriving DecidableEq, Repr, Inhabited
 
 def St.get (s : St) (onX : Bool) : Side := if onX then s.x else s.y
@@ -122,8 +127,33 @@ def St.step (s : St) : Step → St
     match me.tunnels[j]? with
     | none => s
     | some t => s.set onX { me with tunnels := me.tunnels.eraseIdx j, removed := me.removed ++ [t] }
+  | .check _ _ _ _ => s     -- see `St.stepAll`
 
-def St.run (s : St) (steps : List Step) : St := steps.foldl St.step s
+/-- what makeTrafficDecision reads for tunnel `j` (certificate valid, counters far from their limits, no
+inactivity timeout): the decision function is the connection-manager model of C30 (Model/ConnMgr.lean) -/
+def checkIn (me peer : Side) (j : Nat) (t : Tun) (inT outT : Bool) : Nebula.ConnMgr.In :=
+  { found := true, cert := .ok, disconnectInvalid := false, hasCS := true, counter := 0, isMain := j == 0,
+    inT := inT, outT := outT, pd := me.pdl.contains t, dropInactive := false, idle := 0, timeout := 0,
+    swap := shouldSwap me peer }
+
+/-- doTrafficCheck on tunnel `j`: delete, swap or keep, and the pendingDeletion mark -/
+def Side.check (me peer : Side) (j : Nat) (inT outT : Bool) : Side :=
+  match me.tunnels[j]? with
+  | none => me
+  | some t =>
+    let o := Nebula.ConnMgr.trafficDecision (checkIn me peer j t inT outT)
+    let pdl' := if o.pd then (if me.pdl.contains t then me.pdl else t :: me.pdl) else me.pdl.filter (· != t)
+    match o.decision with
+    | .deleteTunnel =>
+      { me with tunnels := me.tunnels.eraseIdx j, removed := me.removed ++ [t], pdl := pdl'.filter (· != t) }
+    | .swapPrimary => { me with tunnels := t :: me.tunnels.eraseIdx j, swaps := me.swaps + 1, pdl := pdl' }
+    | _ => { me with pdl := pdl' }
+
+def St.stepAll (s : St) : Step → St
+  | .check onX j inT outT => s.set onX ((s.get onX).check (s.get (!onX)) j inT outT)
+  | st => s.step st
+
+def St.run (s : St) (steps : List Step) : St := steps.foldl St.stepAll s
 
 def St.init (ax ay : Nat) : St := { x := { addr := ax }, y := { addr := ay } }
 
